@@ -1,6 +1,8 @@
 import DaskModel.Model.BagOps
 import DaskModel.Model.BagShuffle
 import DaskModel.Lemmas.BagReduce
+import DaskModel.Lemmas.BagOps
+import DaskModel.Lemmas.SubMultiset
 /-! # C48 — bag operations equal their Python reference (theorems) -/
 namespace Dask.C48
 open Dask.BagReduce Dask.BagOps Dask.BagShuffle
@@ -30,5 +32,213 @@ theorem split_every_irrelevant (h : List α → β) (agg : List β → β)
     (hom : ∀ qs : List (List α), agg (qs.map h) = h qs.flatten)
     (se se' : Nat) (hse : 2 ≤ se) (hse' : 2 ≤ se') (b : Bag α) : reduction h agg se b = reduction h agg se' b := by
   rw [bag_reduction_eq h agg hom se hse, bag_reduction_eq h agg hom se' hse']
+
+
+/-! ## fold -/
+
+/-- **`bag_fold_eq`**: when `binop/combine/initial` form a homomorphism
+    (`foldl binop init (q₁ ++ q₂) = combine (foldl binop init q₁) (foldl binop init q₂)`, e.g. `combine`
+    a monoid with unit `init` and `binop acc x = combine acc (g x)`), `Bag.fold(binop, combine, init)` is
+    the sequential `functools.reduce(binop, seq, init)` — for every partitioning (all partitions empty
+    included: the repaired #25) and every `split_every ≥ 2`. -/
+theorem bag_fold_eq (binop : β → α → β) (combine : β → β → β) (init : β)
+    (hom : ∀ q₁ q₂ : List α, (q₁ ++ q₂).foldl binop init = combine (q₁.foldl binop init) (q₂.foldl binop init))
+    (se : Nat) (hse : 2 ≤ se) (b : Bag α) : foldB binop combine init se b = some ((den b).foldl binop init) := by
+  apply bag_reduction_eq _ _ _ se hse b
+  intro qs
+  cases qs with
+  | nil => rfl
+  | cons q qs =>
+    simp only [List.map_cons, List.flatten_cons]
+    induction qs generalizing q with
+    | nil => simp
+    | cons q' qs ih =>
+      simp only [List.map_cons, List.foldl_cons, List.flatten_cons]
+      rw [← hom q q', ← List.append_assoc]
+      have := ih (q ++ q')
+      simpa using this
+
+/-- the standard sufficient condition for the homomorphism hypothesis: `combine` a monoid with unit
+    `init`, `binop acc x = combine acc (g x)` (sum, product, max with a bottom, set union, …) -/
+theorem fold_hom_of_monoid (combine : β → β → β) (init : β) (g : α → β)
+    (assoc : ∀ a b c, combine (combine a b) c = combine a (combine b c))
+    (unitL : ∀ a, combine init a = a) (unitR : ∀ a, combine a init = a) (q₁ q₂ : List α) :
+    (q₁ ++ q₂).foldl (fun acc x => combine acc (g x)) init =
+      combine (q₁.foldl (fun acc x => combine acc (g x)) init) (q₂.foldl (fun acc x => combine acc (g x)) init) := by
+  have key : ∀ (q : List α) (a : β), q.foldl (fun acc x => combine acc (g x)) a =
+      combine a (q.foldl (fun acc x => combine acc (g x)) init) := by
+    intro q
+    induction q with
+    | nil => intro a; simp [unitR]
+    | cons x q ih =>
+      intro a
+      simp only [List.foldl_cons]
+      rw [ih (combine a (g x)), ih (combine init (g x)), unitL, assoc]
+  rw [List.foldl_append, key q₂]
+
+example : foldB (· + ·) (· + ·) (0 : Int) 2 [[], [], []] = some 0 := by decide
+example : foldB (· + ·) (· + ·) (0 : Int) 2 [[1, 2], [], [3], [4], [5]] = some 15 := by decide
+
+/-- `Bag.sum` is the sum of the concatenated sequence -/
+theorem bag_sum_eq (se : Nat) (hse : 2 ≤ se) (b : Bag Int) : sumB se b = some ((den b).foldl (· + ·) 0) := by
+  apply bag_reduction_eq _ _ _ se hse b
+  intro qs
+  induction qs with
+  | nil => rfl
+  | cons q qs ih =>
+    simp only [List.map_cons, List.foldl_cons, List.flatten_cons, List.foldl_append]
+    have h1 : ∀ (l : List Int) (a : Int), l.foldl (· + ·) a = a + l.foldl (· + ·) 0 := by
+      intro l; induction l with
+      | nil => intro a; simp
+      | cons x l ih2 => intro a; simp only [List.foldl_cons]; rw [ih2 (a + x), ih2 (0 + x)]; omega
+    rw [h1 _ (0 + _), h1 qs.flatten, ← ih]; omega
+
+/-- `Bag.count` is the length of the concatenated sequence -/
+theorem bag_count_eq (se : Nat) (hse : 2 ≤ se) (b : Bag α) : countB se b = some (den b).length := by
+  apply bag_reduction_eq _ _ _ se hse b
+  intro qs
+  induction qs with
+  | nil => rfl
+  | cons q qs ih =>
+    simp only [List.map_cons, List.foldl_cons, List.flatten_cons, List.length_append]
+    have h1 : ∀ (l : List Nat) (a : Nat), l.foldl (· + ·) a = a + l.foldl (· + ·) 0 := by
+      intro l; induction l with
+      | nil => intro a; simp
+      | cons x l ih2 => intro a; simp only [List.foldl_cons]; rw [ih2 (a + x), ih2 (0 + x)]; omega
+    rw [h1 _ (0 + _), ← ih]; omega
+
+/-! ## per-partition maps (row-local operations) -/
+
+theorem bag_map_den (f : α → β) (b : Bag α) : den (mapB f b) = (den b).map f := by
+  simp [den, mapB, List.map_flatten]
+theorem bag_filter_den (p : α → Bool) (b : Bag α) : den (filterB p b) = (den b).filter p := by
+  simp [den, filterB, List.filter_flatten]
+theorem bag_remove_den (p : α → Bool) (b : Bag α) : den (removeB p b) = (den b).filter (fun x => !p x) := by
+  simp [den, removeB, List.filter_flatten]
+theorem bag_flatten_den (b : Bag (List α)) : den (flattenB b) = (den b).flatten := by
+  simp [den, flattenB, List.flatten_flatten]
+/-- `map_partitions(g)` equals `g` of the whole sequence exactly when `g` distributes over concatenation -/
+theorem bag_map_partitions_den (g : List α → List β) (hg : ∀ qs : List (List α), (qs.map g).flatten = g qs.flatten)
+    (b : Bag α) : den (mapPartitionsB g b) = g (den b) := hg b
+theorem bag_concat_den (bs : List (Bag α)) : den (concatB bs) = (bs.map den).flatten := by
+  simp only [den, concatB, List.flatten_flatten]; rfl
+
+/-! ## accumulate -/
+
+/-- **`accumulate_eq_itertools`**: the partitions of `Bag.accumulate(binop[, initial])` concatenate to
+    `itertools.accumulate(seq, binop[, initial=…])` — for every binop (no algebraic assumption), every
+    partitioning with at least one partition, empty partitions anywhere (the repaired defect: an empty
+    first partition without initial). -/
+theorem accumulate_eq_itertools (binop : α → α → α) (init : Option α) (b : Bag α) (hb : b ≠ []) :
+    den (accumulateB binop init b) = pyAccumulate binop init (den b) := by
+  cases init with
+  | none => exact accumulateGo_none binop true b
+  | some a => exact accumulateGo_first_some binop a b hb
+
+example : accumulateB (· + ·) none [[], [1, 2], [], [3]] = [[], [1, 3], [], [6]] := by decide
+example : accumulateB (fun a x => a - x) (some 10) [[], [1, 2]] = [[10], [9, 7]] := by decide
+
+/-! ## take -/
+
+theorem take_flatten_map_take (k k' : Nat) (hk : k' ≤ k) (bs : List (List α)) :
+    ((bs.map (List.take k)).flatten).take k' = bs.flatten.take k' := by
+  induction bs generalizing k' with
+  | nil => rfl
+  | cons p ps ih =>
+    simp only [List.map_cons, List.flatten_cons, List.take_append, List.take_take, List.length_take]
+    rw [Nat.min_eq_left hk]
+    congr 1
+    by_cases h : p.length ≤ k
+    · rw [Nat.min_eq_right h]; exact ih (k' - p.length) (by omega)
+    · have h1 : k' - min k p.length = 0 := by omega
+      have h2 : k' - p.length = 0 := by omega
+      rw [h1, h2]; simp
+
+/-- **`take_eq_islice`**: `take(k, npartitions=-1)` is the first `k` elements of the sequence;
+    `take(k, npartitions=n)` the first `k` elements of the first `n` partitions (at least one) -/
+theorem take_eq_islice (k : Nat) (b : Bag α) : takeB k none b = some ((den b).take k) := by
+  simp only [takeB, Option.getD_none, Nat.lt_irrefl, if_false]
+  split
+  · simp [List.take_length, take_flatten_map_take k k (Nat.le_refl k), den]
+  · next h =>
+    have : b.length ≤ 1 := by omega
+    match b, this with
+    | [], _ => simp [den]
+    | [p], _ => simp [den]
+
+theorem take_first_partitions (k n : Nat) (b : Bag α) (hn : n ≤ b.length) :
+    takeB k (some n) b = some ((b.take (max n 1)).flatten.take k) := by
+  simp only [takeB, Option.getD_some, show ¬ b.length < n by omega, if_false]
+  split
+  · next h =>
+    rw [take_flatten_map_take k k (Nat.le_refl k), show max n 1 = n by omega]
+  · next h =>
+    have : max n 1 = 1 := by omega
+    rw [this]
+    cases b <;> simp
+
+/-- more partitions requested than exist: ValueError -/
+theorem take_too_many (k n : Nat) (b : Bag α) (hn : b.length < n) : takeB k (some n) b = none := by
+  simp [takeB, hn]
+
+/-! ## repartition -/
+
+theorem boundariesFewer_spec (n m : Nat) (hm : 0 < m) :
+    (boundariesFewer n m).head? = some 0 ∧ (boundariesFewer n m).getLast? = some n ∧
+    (boundariesFewer n m).Pairwise (· ≤ ·) ∧ (boundariesFewer n m).length = m + 1 := by
+  refine ⟨?_, ?_, ?_, by simp [boundariesFewer]⟩
+  · simp [boundariesFewer, List.range_succ_eq_map]
+  · simp [boundariesFewer, List.range_succ, Nat.mul_div_cancel_left n hm]
+  · simp only [boundariesFewer, List.pairwise_map]
+    apply List.Pairwise.imp _ (List.pairwise_lt_range)
+    intro i j hij
+    exact Nat.div_le_div_right (Nat.mul_le_mul_right n (Nat.le_of_lt hij))
+
+/-- **`repartition_den` (fewer)**: repartitioning to `m < n` partitions keeps the sequence and yields
+    exactly `m` partitions (the repaired defect: floats gave `m + 1` for e.g. 15 → 11) -/
+theorem repartition_fewer (cuts : Nat → List Nat) (m : Nat) (hm : 0 < m) (b : Bag α) (hlt : m < b.length) :
+    den (repartitionB cuts m b) = den b ∧ (repartitionB cuts m b).length = m := by
+  obtain ⟨h0, hl, hpw, hlen⟩ := boundariesFewer_spec b.length m hm
+  have hfix : fixBoundaries b.length (boundariesFewer b.length m) = boundariesFewer b.length m := by
+    simp only [fixBoundaries]
+    cases hbs : boundariesFewer b.length m with
+    | nil => simp [hbs] at hlen
+    | cons x xs =>
+      rw [hbs] at h0 hl
+      have hx : x = 0 := by simpa using h0
+      subst hx
+      have hlast : (0 :: xs).getLastD 0 = b.length := by
+        rw [List.getLastD_eq_getLast?, hl]; rfl
+      rw [hlast]; simp
+  simp only [repartitionB, show m ≠ b.length by omega, if_false, hlt, if_true, hfix]
+  cases hbs : boundariesFewer b.length m with
+  | nil => simp [hbs] at hlen
+  | cons x xs =>
+    rw [hbs] at h0 hl hpw hlen
+    have hx : x = 0 := by simpa using h0
+    subst hx
+    refine ⟨?_, by rw [fromBoundaries_length]; simp at hlen ⊢; omega⟩
+    simp only [den]
+    rw [fromBoundaries_flatten b 0 xs hpw]
+    have : (0 :: xs).getLast (by simp) = b.length := by
+      have := List.getLast?_eq_some_getLast (l := 0 :: xs) (by simp)
+      rw [hl] at this
+      exact (Option.some.inj this).symm
+    rw [this]; simp
+
+theorem sum_replicate_nat (k v : Nat) : (List.replicate k v).sum = k * v := by
+  induction k with
+  | zero => simp
+  | succ k ih => simp [List.replicate_succ, ih, Nat.add_mul]; omega
+
+theorem nsplitsMore_sum (n m : Nat) (hn : 0 < n) : (nsplitsMore n m).sum = m ∧ (nsplitsMore n m).length = n := by
+  constructor
+  · simp only [nsplitsMore, List.sum_append, sum_replicate_nat, List.sum_cons, List.sum_nil]
+    have := Nat.div_add_mod m n
+    obtain ⟨n', rfl⟩ : ∃ n', n = n' + 1 := ⟨n - 1, by omega⟩
+    simp only [Nat.add_sub_cancel]
+    rw [Nat.add_mul, Nat.one_mul] at this
+    omega
+  · simp [nsplitsMore]; omega
 
 end Dask.C48
